@@ -19,6 +19,8 @@ type Gen struct {
 	R *rand.Rand
 	// Big: allow long lists / strings (thorough tier)
 	Big bool
+	// ForceList: when > 0, every list gets exactly ForceList-1 elements (capped at the list's maximum)
+	ForceList int
 }
 
 func (g *Gen) u8() uint8 {
@@ -199,6 +201,12 @@ func (g *Gen) Text(max int) string {
 }
 
 func (g *Gen) listLen(max int) int {
+	if g.ForceList > 0 {
+		if g.ForceList-1 > max {
+			return max
+		}
+		return g.ForceList - 1
+	}
 	if g.Big && g.R.Intn(8) == 0 {
 		return max
 	}
